@@ -3,7 +3,7 @@
 // VF_OB_MAX select the slice of the order matrix built into this unit.
 #include "oplist.h"
 using namespace vf;
-using S = QP;
+using S = vf::DefaultScalar;
 using OL = OpList<S>;
 using bspline::integration::BilinearForm;
 using bspline::integration::ScalarProduct;
